@@ -228,6 +228,61 @@ fn ref_total(f: &Fld) -> Option<Option<u32>> {
     d += if f.wscale.1.is_none() || f.wscale.0.unwrap_or(0) == f.wscale.1.unwrap_or(0) { 0 } else { 1 };
     Some(Some(d))
 }
+/// every (observed, signature) value pair of the small scalar fields, the other fields equal: window scale 257 x 257
+/// (incl. absent), IP option length 256 x 256, MSS: all 65536 observed values x 8 signature values (and absent / wildcard)
+fn check_scalar_domains(r: &mut Report) {
+    let base = Fld {
+        ver: (IpVersion::V4, IpVersion::V4),
+        ttl: (Ttl::Distance(57, 7), Ttl::Value(64)),
+        olen: (0, 0),
+        mss: (Some(1460), Some(1460)),
+        win: (WindowSize::Value(8191), WindowSize::Value(8191)),
+        wscale: (Some(7), Some(7)),
+        olayout: (vec![TcpOption::Mss, TcpOption::Nop, TcpOption::Ws], vec![TcpOption::Mss, TcpOption::Nop, TcpOption::Ws]),
+        quirks: (vec![Quirk::Df], vec![Quirk::Df]),
+        pclass: (PayloadSize::Zero, PayloadSize::Zero),
+    };
+    let one = |r: &mut Report, f: &Fld, what: &str| {
+        let (obs, sig) = build(f);
+        let exp = ref_total(f);
+        r.exec(1);
+        match guarded(|| sig.calculate_distance(&obs)) {
+            Err(p) => r.dev("C12/panic", "panic", || json!({"observed": obs.to_string(), "signature": sig.to_string(), "detail": p})),
+            Ok(got) => {
+                r.outcome(&(what, got));
+                if let Some(e) = exp {
+                    if e != got {
+                        r.dev(format!("C12/{what}-pair-distance"), what.to_string(), || json!({"field": what, "observed": obs.to_string(), "signature": sig.to_string(), "expected": e, "actual": got}));
+                    }
+                }
+            }
+        }
+    };
+    let opt8 = |i: usize| if i == 256 { None } else { Some(i as u8) };
+    for a in 0..=256usize {
+        for b in 0..=256usize {
+            one(r, &Fld { wscale: (opt8(a), opt8(b)), ..base.clone() }, "wscale");
+        }
+    }
+    for a in 0..=255u8 {
+        for b in 0..=255u8 {
+            one(r, &Fld { olen: (a, b), ..base.clone() }, "olen");
+        }
+    }
+    let sig_mss: [Option<u16>; 9] = [None, Some(0), Some(1), Some(536), Some(1459), Some(1460), Some(1461), Some(65534), Some(65535)];
+    let rep = par_slices(65537, 64, |rg| {
+        let mut r = Report::new();
+        for a in rg {
+            let om = if a == 65536 { None } else { Some(a as u16) };
+            for sm in sig_mss {
+                // the window is kept in a form that does not depend on the MSS
+                one(&mut r, &Fld { mss: (om, sm), ..base.clone() }, "mss");
+            }
+        }
+        r
+    });
+    *r = std::mem::take(r).merge(rep);
+}
 fn check_whole(r: &mut Report) {
     use Quirk::*;
     let vers = [(IpVersion::V4, IpVersion::V4), (IpVersion::V6, IpVersion::V6), (IpVersion::V4, IpVersion::Any), (IpVersion::V6, IpVersion::Any), (IpVersion::V4, IpVersion::V6), (IpVersion::V6, IpVersion::V4)];
@@ -475,6 +530,7 @@ pub fn run(thorough: bool) -> Outcome {
     check_ttl(&mut r);
     check_window(&mut r, thorough);
     check_whole(&mut r);
+    check_scalar_domains(&mut r);
     check_http(&mut r, thorough);
     Outcome {
         report: r,
